@@ -746,3 +746,157 @@ Proof.
 Qed.
 
 End Machine.
+
+(* ------------------------------------------------------------------------------------------ *)
+(* fuel: the typed run makes exactly the untyped traverser's steps, so C21's totality bounds it *)
+Section Run.
+Variable s : schema.
+Variable root : tid.
+Variable cfg : tconfig.
+Notation tstep := (typed_step s root cfg).
+Notation trun := (typed_run s root cfg).
+
+Lemma typed_not_oof : forall fuel cs st evs, run Scrypto cfg fuel st = RDone evs -> trun fuel cs st <> POutOfFuel.
+Proof.
+  induction fuel as [|f IH]; intros cs st evs R; [discriminate|].
+  cbn [run] in R. cbn [typed_run]. unfold typed_step.
+  destruct (step Scrypto cfg st) as [e st'|] eqn:St; [|discriminate].
+  destruct (typed_out s root cs (TStep e st')) as [cs' st''|r] eqn:TO.
+  - assert (is_final (l_ev e) = false /\ st'' = st').
+    { unfold typed_out in TO. destruct (l_ev e); cbn [is_final];
+        repeat match type of TO with
+        | context [match ?x with _ => _ end] => destruct x; try discriminate TO
+        end; inversion TO; split; reflexivity. }
+    destruct H as [F E]. subst st''. rewrite F in R.
+    destruct (run Scrypto cfg f st') as [l|l|l] eqn:R'; try discriminate. eapply IH. exact R'.
+  - unfold typed_out in TO. destruct (l_ev e);
+      repeat match type of TO with
+      | context [match ?x with _ => _ end] => destruct x; try discriminate TO
+      end; inversion TO; discriminate.
+Qed.
+
+Lemma typed_run_reach : forall n cs st cs1 s1 r, tysteps s root cfg n cs st = Some (cs1, s1) ->
+  tstep cs1 s1 = TyDone r -> forall fuel, trun fuel cs st = r \/ trun fuel cs st = POutOfFuel.
+Proof.
+  induction n as [|n IH]; intros cs st cs1 s1 r R T fuel; cbn [tysteps] in R.
+  - inversion R; subst. destruct fuel; [right; reflexivity|]. cbn [typed_run]. rewrite T. left. reflexivity.
+  - destruct (tstep cs st) as [cs' st'|] eqn:TS; [|discriminate].
+    destruct fuel; [right; reflexivity|]. cbn [typed_run]. rewrite TS. eapply IH; eassumption.
+Qed.
+
+(* POk only on the untyped End event *)
+Lemma accepts_cons : forall e l, l <> [] -> accepts (RDone (e :: l)) = accepts (RDone l).
+Proof.
+  intros e l NE. unfold accepts. cbn [rev]. destruct (rev l) as [|x r] eqn:E.
+  - apply (f_equal (@rev _)) in E. rewrite rev_involutive in E. cbn in E. contradiction.
+  - reflexivity.
+Qed.
+Lemma typed_ok_untyped : forall fuel cs st, trun fuel cs st = POk -> accepts (run Scrypto cfg fuel st) = true.
+Proof.
+  induction fuel as [|f IH]; intros cs st H; [discriminate|].
+  cbn [typed_run] in H. cbn [run]. unfold typed_step in H.
+  destruct (step Scrypto cfg st) as [e st'|] eqn:St; [|cbn in H; discriminate].
+  destruct (typed_out s root cs (TStep e st')) as [cs' st''|r] eqn:TO.
+  - assert (is_final (l_ev e) = false /\ st'' = st').
+    { unfold typed_out in TO. destruct (l_ev e); cbn [is_final];
+        repeat match type of TO with
+        | context [match ?x with _ => _ end] => destruct x; try discriminate TO
+        end; inversion TO; split; reflexivity. }
+    destruct H0 as [F E]. subst st''. rewrite F. specialize (IH cs' st' H).
+    destruct (run Scrypto cfg f st') as [l|l|l]; try discriminate IH.
+    destruct l as [|x l]; [discriminate IH|]. rewrite accepts_cons by discriminate. exact IH.
+  - subst r. unfold typed_out in TO. destruct (l_ev e) eqn:Ev;
+      repeat match type of TO with
+      | context [match ?x with _ => _ end] => destruct x; try discriminate TO
+      end; try discriminate TO.
+    cbn [is_final]. unfold accepts. cbn [rev app]. rewrite Ev. reflexivity.
+Qed.
+End Run.
+
+(* ------------------------------------------------------------------------------------------ *)
+Theorem streaming_iff_validates : forall s t md payload, 1 <= md ->
+  (validate_payload s t md payload = POk <-> validates_payload s t md payload = true).
+Proof.
+  intros s t md payload Hmd. unfold validate_payload, validates_payload.
+  set (cfg := {| c_md := md; c_check_end := true; c_total := nlen payload |}).
+  change (cfg_of md true payload) with cfg in *.
+  set (st0 := {| t_act := AReadPrefix (payload_prefix Scrypto); t_stack := []; t_in := payload |}).
+  set (fuel := (2 * length payload + 4)%nat).
+  assert (Tot : exists evs, run Scrypto cfg fuel st0 = RDone evs) by (apply (total_payload Scrypto cfg payload); exact Hmd).
+  destruct Tot as [evs Tot].
+  assert (NO : forall cs, typed_run s t cfg fuel cs st0 <> POutOfFuel) by (intro cs; eapply typed_not_oof; exact Tot).
+  assert (Agree := traverser_agrees Scrypto md payload Hmd). rewrite traverse_payload_run in Agree.
+  change (cfg_of md true payload) with cfg in Agree. change (fuel_t payload) with fuel in Agree.
+  change (s0 Scrypto payload) with st0 in Agree.
+  destruct (decode_payload Scrypto md payload) as [v|err| |] eqn:DP.
+  2-4: (split; [|discriminate]; intro H; apply typed_ok_untyped in H; apply Agree in H; destruct H as [v' H]; discriminate).
+  (* the decoder produced v: unfold it as in C21's sim_payload *)
+  assert (Main : if validates s t v
+                 then exists n, tysteps s t cfg n [] st0 = Some ([], mk ANextChild [] [])
+                 else TFail s t cfg [] st0).
+  { unfold decode_payload, decode_payload_fuel in DP.
+    destruct payload as [|p st]; cbn [read_byte bind] in DP; [discriminate|].
+    destruct (negb (p =? payload_prefix Scrypto)) eqn:P; [discriminate|].
+    assert (St0 : step Scrypto cfg st0 = read_value Scrypto cfg None [] st).
+    { unfold st0, step. cbn [t_act t_stack t_in read_byte bind]. rewrite P. reflexivity. }
+    unfold dec_value in DP.
+    destruct (read_value_kind Scrypto st) as [[k st']| | |] eqn:RK; cbn [bind] in DP; try discriminate.
+    unfold dec_deeper in DP. replace (md <? 0 + 1) with false in DP by (symmetry; apply N.ltb_ge; lia).
+    change (0 + 1) with (nlen (@nil ancestor) + 1) in DP.
+    destruct (dec_body Scrypto (fuel_for (p :: st)) md (nlen (@nil ancestor) + 1) k st') as [[v0 rest]| | |] eqn:DB;
+      cbn [bind] in DP; try discriminate.
+    destruct rest as [|x rest]; [|discriminate]. inversion DP; subst v0. clear DP.
+    destruct (T_all s t cfg (fuel_for (p :: st))) as [TV _].
+    assert (VO := TV_of s t cfg _ TV None k [] st st' v [] [] RK ltac:(discriminate) ltac:(exact Hmd) DB).
+    unfold VOut in VO. cbn [get_type_id] in VO.
+    destruct (validates s t v).
+    - destruct VO as [n RO]. exists (S n). eapply tysteps_S; eassumption.
+    - eapply TFail_S; eassumption. }
+  destruct (validates s t v).
+  - split; [reflexivity|intros _].
+    destruct Main as [n R].
+    assert (TS : typed_step s t cfg [] (mk ANextChild [] []) = TyDone POk) by reflexivity.
+    destruct (typed_run_reach s t cfg n _ _ _ _ _ R TS fuel) as [E|E]; [exact E|]. exfalso. eapply NO. exact E.
+  - split; [|discriminate]. intro H. exfalso.
+    destruct Main as [n [cs1 [s1 [r [R [TS NR]]]]]].
+    destruct (typed_run_reach s t cfg n _ _ _ _ _ R TS fuel) as [E|E].
+    + apply NR. rewrite <- E. exact H.
+    + eapply NO. exact E.
+Qed.
+
+(* with validates_spec: the streaming validator accepts exactly the payloads that decode to a
+   value of the type *)
+Theorem streaming_iff_hastype : forall s t md payload, 1 <= md ->
+  (validate_payload s t md payload = POk <->
+   exists v, decode_payload Scrypto md payload = Ok v /\ HasType s t v).
+Proof.
+  intros s t md payload Hmd. rewrite (streaming_iff_validates s t md payload Hmd).
+  unfold validates_payload. destruct (decode_payload Scrypto md payload) as [v| | |].
+  - rewrite validates_spec. split; [intro H; exists v; split; [reflexivity|exact H]|].
+    intros [v' [E H]]. inversion E; subst. exact H.
+  - split; [discriminate|intros [v' [E _]]; discriminate].
+  - split; [discriminate|intros [v' [E _]]; discriminate].
+  - split; [discriminate|intros [v' [E _]]; discriminate].
+Qed.
+
+(* the streaming model never panics and never runs out of fuel (limits >= 1) *)
+Theorem streaming_total : forall s t md payload, 1 <= md ->
+  validate_payload s t md payload <> POutOfFuel.
+Proof.
+  intros s t md payload Hmd. unfold validate_payload.
+  destruct (total_payload Scrypto (cfg_of md true payload) payload Hmd) as [evs Tot].
+  eapply typed_not_oof. exact Tot.
+Qed.
+
+(* the first half of the property, at the level of value trees: the encoding of a (well-formed,
+   valid) value decodes back to it, and validates at type t exactly when the value has type t *)
+Theorem encode_validates : forall s t md v bs, 1 <= md ->
+  wf_value Scrypto v = true -> valid_value v = true -> encode_payload Scrypto md v = Ok bs ->
+  decode_payload Scrypto md bs = Ok v /\ (validate_payload s t md bs = POk <-> HasType s t v).
+Proof.
+  intros s t md v bs Hmd W V E.
+  assert (D : decode_payload Scrypto md bs = Ok v) by (eapply decode_encode; eassumption).
+  split; [exact D|]. rewrite (streaming_iff_hastype s t md bs Hmd). split.
+  - intros [v' [D' H]]. rewrite D in D'. inversion D'; subst. exact H.
+  - intro H. exists v. split; assumption.
+Qed.
